@@ -1,6 +1,6 @@
 (* C15_Check.v — correspondence checker for C15: evaluates the model on the inputs the
    implementation ran, and the specification on the outputs the implementation produced. *)
-From Verif Require Export Base C15_Model C15_Scan C15_Fill.
+From Verif Require Export Base C15_Model C15_Scan C15_Fill C15_Count.
 Open Scope Z_scope.
 
 Definition rows_eqb := zzlist_eqb.
@@ -45,7 +45,9 @@ Record case := mk_case {
   g_run : bool; o_gfind : list row;
   (* the chain under a Select list ((reported name, source column); [] = no Select) read into a slice
      of structs and into a slice of maps: every record field by field, every map entry by entry *)
-  c_sel : sel; o_srecs : list assoc; o_mrecs : list assoc
+  c_sel : sel; o_srecs : list assoc; o_mrecs : list assoc;
+  (* Statement.Selects of the Count / Find comparison under a Select (o_selcount) *)
+  c_csel : list string
 }.
 
 Definition has_lops (c : case) := match c_lops c with [] => false | _ => true end.
@@ -160,7 +162,8 @@ Definition probe_ok (t : list (Z * Z * Z)) (p : (Z * (Z * Z)) * (Z * Z)) : bool 
   end.
 Definition extra_model_agrees (c : case) : bool :=
   let n := Z.of_nat (length (matches (c_cond c) (c_tbl c))) in
-  ((o_selcount c =? -1) || ((o_selfind c =? n) && (o_selmaps c =? n)))
+  ((o_selcount c =? -1) || ((o_selfind c =? n) && (o_selmaps c =? n)
+                             && (o_selcount c =? count_sel (c_csel c) (matches (c_cond c) (c_tbl c)))))
   && forallb (probe_ok (c_ck c)) (o_ckprobes c).
 (* the property on what gorm returned: Count equals the rows Find returns whatever columns are
    selected; a single-record finder returns the row with the destination's key, and
